@@ -73,6 +73,42 @@ func runC40(c *Ctx) {
 		res2 := fl2.Analyze(fn, emptyState())
 		_ = res2
 	}
+	// C40.R1: the in-progress flag serialises ratchets across the points where a migration drops
+	// DB.mu. A call owns the flag only after it saw it clear: setting it, and arranging for it to be
+	// cleared (directly or by a deferred closure), happen on the edge where the flag was tested
+	// false. A rejected concurrent call that clears the flag lets a third ratchet overtake the
+	// running one, which then finalises its older target: the version goes down.
+	if fn := c.Fn("C40.R1", "p.(*DB).ratchetFormatMajorVersionLocked"); fn != nil {
+		flag := c.Field("C40.R1", "p.DB.mu.formatVers.ratcheting")
+		storesFlag := func(f *ssa.Function) bool { return len(instrs(f, StoreTo(flag))) > 0 }
+		touch := Pred("set / arrange to clear formatVers.ratcheting", func(in ssa.Instruction) bool {
+			switch x := in.(type) {
+			case *ssa.Store:
+				return fieldOfValue(x.Addr) == flag
+			case *ssa.Defer:
+				if mc, ok := x.Call.Value.(*ssa.MakeClosure); ok {
+					if cf, ok := mc.Fn.(*ssa.Function); ok {
+						return storesFlag(cf)
+					}
+				}
+				if cal := x.Call.StaticCallee(); cal != nil {
+					return storesFlag(cal)
+				}
+			}
+			return false
+		})
+		fl := NewFlow(c.P).Edge("flag-seen-clear", func(v ssa.Value) (bool, bool) {
+			if _, isBin := v.(*ssa.BinOp); isBin || fieldOfValue(v) != flag {
+				return false, false
+			}
+			return true, true // holds where the flag was false
+		})
+		res := fl.Analyze(fn, emptyState())
+		c.noteFlow(fl)
+		if n := c.Require("C40.R1", res, touch, "the in-progress flag is set, and its reset arranged, only by the call that saw it clear", []string{"flag-seen-clear"}); n < 2 {
+			c.Unresolved("C40.R1", "store to formatVers.ratcheting and its (deferred) reset not found in ratchetFormatMajorVersionLocked")
+		}
+	}
 	// C40.T1
 	consts := c.ConstsOfType("C40.T1", "p.FormatMajorVersion")
 	minV, okMin := c.ConstInt("p", "FormatMinSupported")
